@@ -1,6 +1,7 @@
 (* C13 — property theorems.  Only statements closed by `exact`, each followed by Print Assumptions. *)
 From OlaBase Require Import Bytes.
-From C13 Require Import Gen Model AckTimer Chk Proofs ProofsHelpers ProofsAck ProofsFan.
+From C13 Require Import Gen GenTables Model AckTimer Responders MovingLight Chk Proofs ProofsHelpers ProofsResp ProofsMoving
+  ProofsAck ProofsFan.
 Local Open Scope N_scope.
 
 (* ---- layer 2: the response builders ---- *)
@@ -324,6 +325,78 @@ Theorem c13_block_address :
               good q l (set_dmx_block_address q l).
 Proof. exact set_dmx_block_address_ok. Qed.
 Print Assumptions c13_block_address.
+
+(* ---- round 5: further responders proved handler by handler (no handler hypothesis left).
+   Each statement holds from EVERY state (for the moving light: every state satisfying the invariant,
+   which the initial state has and every request keeps), hence after every history. ---- *)
+Theorem c13_sensor :
+  forall c uid q st,
+    let out := fst (sr_send c uid q st) in
+    let st' := snd (sr_send c uid q st) in
+    (exists s ro, out = [(s, ro)]) /\
+    (is_broadcast (q_dst q) = true -> exists s, out = [(s, None)]) /\
+    (is_broadcast (q_dst q) = false -> directed_to (q_dst q) uid = true ->
+     q_cc q = GET_COMMAND \/ q_cc q = SET_COMMAND ->
+     exists r, out = [(RDM_COMPLETED_OK, Some r)] /\ resp_ok q r /\
+               (r_type r = RDM_NACK_REASON -> st' = st)).
+Proof. exact sensor_conforms. Qed.
+Print Assumptions c13_sensor.
+
+Theorem c13_dimmer_sub :
+  forall c count uid number q st,
+    let out := fst (ds_send c count uid number q st) in
+    let st' := snd (ds_send c count uid number q st) in
+    (exists s ro, out = [(s, ro)]) /\
+    (is_broadcast (q_dst q) = true -> exists s, out = [(s, None)]) /\
+    (is_broadcast (q_dst q) = false -> directed_to (q_dst q) uid = true ->
+     q_cc q = GET_COMMAND \/ q_cc q = SET_COMMAND ->
+     exists r, out = [(RDM_COMPLETED_OK, Some r)] /\ resp_ok q r /\
+               (r_type r = RDM_NACK_REASON -> st' = st)).
+Proof. exact dimmer_sub_conforms. Qed.
+Print Assumptions c13_dimmer_sub.
+
+(* the root device; its state includes the sub-devices it re-addresses (DMX_BLOCK_ADDRESS) *)
+Theorem c13_dimmer_root :
+  forall c uid q st,
+    let out := fst (dm_root_send c uid q st) in
+    let st' := snd (dm_root_send c uid q st) in
+    (exists s ro, out = [(s, ro)]) /\
+    (is_broadcast (q_dst q) = true -> exists s, out = [(s, None)]) /\
+    (is_broadcast (q_dst q) = false -> directed_to (q_dst q) uid = true ->
+     q_cc q = GET_COMMAND \/ q_cc q = SET_COMMAND ->
+     exists r, out = [(RDM_COMPLETED_OK, Some r)] /\ resp_ok q r /\
+               (r_type r = RDM_NACK_REASON -> st' = st)).
+Proof. exact dimmer_root_conforms. Qed.
+Print Assumptions c13_dimmer_root.
+
+(* moving light: GET DEVICE_HOURS / LAMP_HOURS / DEVICE_POWER_CYCLES post-increment their counter even when
+   the GET is NACKed, so "NACK => state unchanged" is stated for SETs (which is what the property says) *)
+Theorem c13_moving_light :
+  forall c uid h q,
+    let st := snd (ml_run c uid h ml_init) in
+    let out := fst (ml_send c uid q st) in
+    let st' := snd (ml_send c uid q st) in
+    (exists s ro, out = [(s, ro)]) /\
+    (is_broadcast (q_dst q) = true -> exists s, out = [(s, None)]) /\
+    (is_broadcast (q_dst q) = false -> directed_to (q_dst q) uid = true ->
+     q_cc q = GET_COMMAND \/ q_cc q = SET_COMMAND ->
+     exists r, out = [(RDM_COMPLETED_OK, Some r)] /\ resp_ok q r /\
+               (q_cc q = SET_COMMAND -> r_type r = RDM_NACK_REASON -> st' = st)).
+Proof.
+  exact (fun c uid h q =>
+           proj2 (moving_light_conforms c uid q _ (ml_run_inv c uid h ml_init ml_init_inv))).
+Qed.
+Print Assumptions c13_moving_light.
+
+(* the modelled handler tables have exactly the PIDs and GET/SET handlers of the PARAM_HANDLERS arrays
+   (GenTables.v is regenerated from the sources on every run) *)
+Theorem c13_tables :
+  forall c mc n,
+    shape (sr_table c) = TBL_SensorResponder /\ shape (ds_table c n) = TBL_DimmerSubDevice /\
+    shape (dm_table c) = TBL_DimmerRootDevice /\ shape (at_table c) = TBL_AckTimerResponder /\
+    shape (ml_table mc) = TBL_MovingLightResponder.
+Proof. exact (fun c mc n => conj eq_refl (conj eq_refl (conj eq_refl (conj eq_refl eq_refl)))). Qed.
+Print Assumptions c13_tables.
 
 (* the literal numbers of the property text *)
 Theorem c13_constants :
